@@ -21,7 +21,35 @@ Proof. intros. reflexivity. Qed.
 
 Definition wasrt := assertion step fs.
 
+(* introduction rules for machine_wp that do not unfold the continuation *)
+Lemma mw_seq : forall (p q : P) Q E C s t, machine_wp p (machine_wp q Q E C) E C s t -> machine_wp (Seq p q) Q E C s t.
+Proof. intros. exact H. Qed.
+Lemma mw_read : forall pa (k : option node -> P) Q E C s t, machine_wp (k (look s pa)) Q E C s t -> machine_wp (Read pa k) Q E C s t.
+Proof. intros. exact H. Qed.
+Lemma mw_fresh : forall (k : N -> P) Q E C s t, (forall id, machine_wp (k id) Q E C s t) -> machine_wp (Fresh k) Q E C s t.
+Proof. intros. exact H. Qed.
+Lemma mw_try : forall st (kok : P) kerr (Q : wasrt) E (C : wasrt) s t, C s t ->
+  (forall e, machine_wp (kerr e) Q E C s (t ++ [(st, false)])) ->
+  (forall s', apply st s = inl s' -> machine_wp kok Q E C s' (t ++ [(st, true)])) -> machine_wp (Try st kok kerr) Q E C s t.
+Proof. intros. split; [assumption | split; assumption]. Qed.
+Lemma mw_do : forall st (Q : wasrt) (E : exn errno -> wasrt) (C : wasrt) s t, C s t ->
+  (forall e, E (EOS e) s (t ++ [(st, false)])) ->
+  (forall s', apply st s = inl s' -> Q s' (t ++ [(st, true)])) -> machine_wp (Do st) Q E C s t.
+Proof. intros. split; [assumption | split; assumption]. Qed.
+Lemma mw_catch : forall (p : P) h Q E C s t, machine_wp p Q (fun e => machine_wp (h e) Q E C) C s t -> machine_wp (Catch p h) Q E C s t.
+Proof. intros. exact H. Qed.
+Lemma mw_ret : forall (Q : wasrt) E C s t, Q s t -> machine_wp Ret Q E C s t.
+Proof. intros. exact H. Qed.
+Lemma mw_raise : forall e Q (E : exn errno -> wasrt) C s t, E e s t -> machine_wp (Raise e) Q E C s t.
+Proof. intros. exact H. Qed.
+Lemma mw_mono : forall (p : P) (Q Q' : wasrt) (E E' : exn errno -> wasrt) (C C' : wasrt) s t,
+  (forall s t, Q s t -> Q' s t) -> (forall e s t, E e s t -> E' e s t) -> (forall s t, C s t -> C' s t) ->
+  machine_wp p Q E C s t -> machine_wp p Q' E' C' s t.
+Proof. intros p Q Q' E E' C C' s t H1 H2 H3. unfold machine_wp. apply wp_mono; assumption. Qed.
+Global Opaque machine_wp.
+
 Section AW.
+  Local Transparent machine_wp.
   Variable W : path -> Prop.
   Variables (d : path) (x : name) (v : N).
   Variable s0 : fs.
